@@ -1,7 +1,50 @@
-(* family 9: stub, to be filled *)
+(* family 9: space-packet stream parser (C13).
+   900  history:  a0 = default packet ids as flat (ptype, shf, apid) triples;
+                  a1 = ground truth for the oracle (ignored here);
+                  a2.. = operations: [0; chunk...] append(chunk) on the right,
+                                     [1]           parse(default ids),
+                                     [2; triples]  parse(those ids).
+        result: for every operation [n_packets; n_queue] followed by the
+                returned packets and the queue entries after the call.
+   901  one call of parse_space_packets on a given queue: a0 = ids, a1.. = queue entries
+        ([0; octets...] each); result as for one operation.
+   950  Spec: spec_stream on (a0 = raw 13-bit ids, a1 = buffer): [packets..., remainder] *)
 From Coq Require Import ZArith List Bool.
-From SP Require Import Base.Result Base.Bytes Run.Marshal.
+From SP Require Import Base.Result Base.Bytes Run.Marshal Model.SpacePacket Model.Parser Spec.ParserSpec.
 Import ListNotations.
 Open Scope Z_scope.
 
-Definition run_parser (op : Z) (a : args) : args := [[1; 97]].
+Fixpoint pids_of (l : list Z) : res (list pid) :=
+  match l with
+  | t :: s :: a :: r => do p <- pid_new t s a; do ps <- pids_of r; Ok (p :: ps)
+  | _ => Ok []
+  end.
+
+Definition pop_of (dflt : list pid) (l : list Z) : res pop :=
+  match l with
+  | 0 :: c => Ok (Append c)
+  | 2 :: tr => do ids <- pids_of tr; Ok (Parse ids)
+  | _ => Ok (Parse dflt)
+  end.
+
+Fixpoint pops_of (dflt : list pid) (a : args) : res (list pop) :=
+  match a with
+  | [] => Ok []
+  | l :: r => do o <- pop_of dflt l; do os <- pops_of dflt r; Ok (o :: os)
+  end.
+
+Definition obs1 (o : list bytes * queue) : args :=
+  [Z.of_nat (length (fst o)); Z.of_nat (length (snd o))] :: fst o ++ snd o.
+
+Definition run_parser (op : Z) (a : args) : args :=
+  match op with
+  | 900 => ret (fun l => flat_map obs1 l)
+             (do dflt <- pids_of (lst 0 a);
+              do ops <- pops_of dflt (tl (tl a));
+              run_ops [] ops)
+  | 901 => ret obs1
+             (do ids <- pids_of (lst 0 a);
+              parse_space_packets (map (fun l => tl l) (tl a)) ids)
+  | 950 => let '(p, r) := spec_stream (lst 0 a) (lst 1 a) in [0] :: [Z.of_nat (length p)] :: p ++ [r]
+  | _ => [[1; 97]]
+  end.
